@@ -115,6 +115,7 @@ Fixpoint mon_run (sel : result * result -> result) (m : mon) (l : case) : bool :
   | IOp o re rr :: t => let '(m', b) := mon_step m o (sel (re, rr)) in b && mon_run sel m' t
   | ISnap os rs _ _ :: t =>
       forallb (fun p => check_read m (fst p) (sel (snd p))) (combine os rs) && mon_run sel m t
+  | IKeys _ _ :: t => mon_run sel m t
   end.
 (* a case of the C25 stream: which backend's observations are judged (a history
    that contains the known Redis node-status defect is emitted twice, once per
